@@ -18,8 +18,10 @@ import tempfile
 
 PROP = 'C20'
 LEVEL = 'exploration'
-RULE = ('batch of sources x 2-6 configs x conditions {4 hash seeds, other cwd, 3 fake clocks, reused process '
-        'after k<=12 earlier compilations incl. failing ones, twice in a row}; compared: sha256 of sections 1-4, '
+RULE = ('batch of sources (generated, repository snippets, directed: dead code next to live code, many literals/labels/'
+        'procedures, error-handler programs, language tour) x 2-6 configs x conditions {4 hash seeds, other cwd, 3 fake clocks, '
+        'reused process after k<=12 earlier compilations incl. failing ones, twice in a row, the batch in reverse order in '
+        'a fresh and in the reused process}; compared: sha256 of sections 1-4, '
         'listing, device trace, outcome, tick count; non-trivial = accepted source whose digests were compared '
         'under >=8 conditions; distinct = program shape hash')
 ASSUMPTIONS = ['section 5 (gzip+pickle debug info) is excluded as the property states',
@@ -47,6 +49,13 @@ SPECIAL = [
     ''.join(f"PRINT \"lit{i}\"\n" for i in range(40)),
     ''.join(f"DATA {i}, \"s{i}\"\n" for i in range(20)) + "READ a, b$\nPRINT a; b$\n",
     "x = RND\ny = TIMER\nz$ = INKEY$\nPRINT x; y; z$\nRANDOMIZE 5\nPRINT RND(1)\n",
+    # code that the optimiser deletes (after END / GOTO / in a never-called place) next to code that stays
+    "PRINT \"alpha\"\nPRINT \"beta\"\nPRINT \"gamma\"\nEND\nPRINT \"dead1\"\nPRINT \"dead2\"; \"beta\"\nzl: PRINT \"live\"; \"delta\"\n",
+    "GOTO zl\nPRINT \"skipped\"; 1.5; 70000\nx$ = \"never\"\nzl: PRINT \"a\"; \"b\"; \"c\"; \"d\"\nEND\nPRINT \"tail\"\n",
+    "zs\nEND\nPRINT \"dead\"\nSUB zs\nPRINT \"one\"; \"two\"\nEXIT SUB\nPRINT \"three\"\nEND SUB\nSUB znever\nPRINT \"four\"; \"one\"\nEND SUB\n",
+    "CONST a$ = \"k1\", b$ = \"k2\"\nPRINT a$ + b$; \"k1\" + \"k3\"; \"x\" + \"y\" + \"z\"\nIF 0 THEN PRINT \"folded-away\"\nIF 1 THEN PRINT \"kept\" ELSE PRINT \"gone\"\n",
+    "ON ERROR GOTO zh\nzw\nPRINT \"back\"\nEND\nzh: PRINT \"err\"; ERR\nRESUME NEXT\nSUB zw\nd% = 0\nr% = 100 + 10 \\ d%\nPRINT \"in sub\"; r%\nEND SUB\n",
+    "ON ERROR RESUME NEXT\nzw\nPRINT \"back\"; ERR\nEND\nSUB zw\nd% = 0\nr% = 100 + 10 \\ d%\nPRINT \"in sub\"; r%\nEND SUB\n",
 ]
 
 
@@ -54,11 +63,17 @@ def digest(b):
     return hashlib.sha256(b if isinstance(b, bytes) else b.encode('utf-8', 'surrogatepass')).hexdigest()[:20]
 
 
-def observe_batch(sources, configs, run=True):
-    """-> {f'{i}|{cfg}': digest dict}; executed inside whatever process calls it."""
+def observe_batch(sources, configs, run=True, reverse=False):
+    """-> {f'{i}|{cfg}': digest dict}; executed inside whatever process calls it.  `reverse` visits the (source, config)
+    pairs in the opposite order, so that what ran *before* an item in the same process differs between conditions."""
     from qv import rt, diff
     out = {}
-    for i, (text, script) in enumerate(sources):
+    items = list(enumerate(sources))
+    configs = list(configs)
+    if reverse:
+        items.reverse()
+        configs.reverse()
+    for i, (text, script) in items:
         for cfg in configs:
             cfg = tuple(cfg)
             o = diff.observe(text, cfg, script, run=run, max_ticks=20000, listing=True)
@@ -153,7 +168,7 @@ def child_main(path):
             mon_.set_events(TOOL, mon_.events.CALL)
         except Exception as e:  # noqa: BLE001
             calls['monitor-unavailable'] = str(e)
-    res = observe_batch(job['sources'], job['configs'])
+    res = observe_batch(job['sources'], job['configs'], reverse=bool(job.get('reverse')))
     if job.get('callmon') and hasattr(sys, 'monitoring'):
         try:
             sys.monitoring.set_events(3, 0)
@@ -191,7 +206,6 @@ def gen_cases(tier, seed):
     src = gen_cases_corpus(n, seed, opts={'max_stmts': 6}, with_repo=False)
     snips = [i for i, s in enumerate(casesmod.snippets()) if s['expect'] in ('success', 'trap')]
     src += [{'src': 'repo', 'idx': i} for i in (r.sample(snips, 40 if tier == 'quick' else len(snips)))]
-    src += [{'src': 'text', 'text': t, 'seed': i} for i, t in enumerate(SPECIAL)]
     r.shuffle(src)
     B = 6
     out = []
@@ -200,6 +214,19 @@ def gen_cases(tier, seed):
         k = i // B
         cfgs = allc if k % 4 == 0 else [allc[k % 6], allc[(k + 3) % 6]]
         out.append({'batch': src[i:i + B], 'configs': cfgs, 'hseed': seed * 31 + k})
+    # directed sources, the language tour and error-handler programs: always under all six configurations
+    from .. import tour
+    from . import c10
+    special = [{'src': 'text', 'text': t, 'seed': i} for i, t in enumerate(SPECIAL)]
+    special += [{'src': 'tour', 'idx': i} for i in range(len(tour.TOUR)) if tier != 'quick' or i % 6 == seed % 6]
+    for i in range(8 if tier == 'quick' else 120):
+        r0 = random.Random(seed * 7919 + i)
+        pl = c10.plan(r0)
+        if pl['place'] in ('sub', 'function'):
+            pl['steps'] = [s_ for s_ in pl['steps'] if s_['k'] != 'gosub']
+        special.append({'src': 'text', 'text': c10.build(pl, random.Random(seed * 7919 + i + 1))[0], 'seed': i, 'scriptv': {}})
+    for i in range(0, len(special), 8):
+        out.append({'batch': special[i:i + 8], 'configs': allc, 'hseed': seed * 37 + i})
     return out
 
 
@@ -225,22 +252,25 @@ def run_case(case):
     obs = {}
     obs['reused-after-history'] = observe_batch(sources, configs)
     obs['reused-again'] = observe_batch(sources, configs)
+    obs['reused-reversed-order'] = observe_batch(sources, configs, reverse=True)
     other_cwd = tempfile.mkdtemp(prefix='qv-cwd-')
     job = {'sources': sources, 'configs': configs}
     conds = [('hash0', {'PYTHONHASHSEED': '0'}, VERIF, None, True),
              ('hash1', {'PYTHONHASHSEED': '1'}, VERIF, None, False),
-             ('hash2', {'PYTHONHASHSEED': '2'}, VERIF, None, False),
+             ('hash2', {'PYTHONHASHSEED': '7'}, VERIF, None, False),
              ('hashrandom', {'PYTHONHASHSEED': 'random'}, VERIF, None, False),
-             ('cwd', {'PYTHONHASHSEED': '3'}, other_cwd, None, False),
-             ('clock1970', {'PYTHONHASHSEED': '4'}, VERIF, 1000.0, False),
-             ('clock2038', {'PYTHONHASHSEED': '5'}, VERIF, 2147483000.0, False),
-             ('clock-midnight', {'PYTHONHASHSEED': '6'}, VERIF, 1767225599.9, False)]
+             ('cwd', {'PYTHONHASHSEED': '0'}, other_cwd, None, False),
+             ('clock1970', {'PYTHONHASHSEED': '0'}, VERIF, 1000.0, False),
+             ('clock2038', {'PYTHONHASHSEED': '0'}, VERIF, 2147483000.0, False),
+             ('clock-midnight', {'PYTHONHASHSEED': '0'}, VERIF, 1767225599.9, False),
+             ('reversed-order', {'PYTHONHASHSEED': '0'}, VERIF, None, False)]
     problems = []
     for name, env, cwd, clock, audit in conds:
         j = dict(job)
         j['clock'] = clock
         j['audit'] = audit
         j['callmon'] = (name == 'hash2')
+        j['reverse'] = (name == 'reversed-order')
         res, err = spawn(j, env, cwd)
         st['child_processes'] += 1
         if res is None:
